@@ -2415,7 +2415,8 @@ char* get_line_number (const char *p, const program_t * progp) {
     }
   if (!file)
     file = progp->name;
-  sprintf (buf, "/%s:%d", file, line);
+  /* a file name is as long as a path: cut the name, not the line number behind it */
+  snprintf (buf, sizeof (buf), "/%.*s:%d", (int) sizeof (buf) - 16, file, line);
   return buf;
 }
 
